@@ -206,6 +206,26 @@ fn call(entry: &str, data: &[u8]) -> Outcome {
         "sm4.mode.decrypt.iv" => okerr(Sm4CipherMode::new(&f.sm4_key, mode_of(parts[1])).and_then(|m| m.decrypt(&[0x42u8; 32], data))),
         "sm4.mode.encrypt.iv" => okerr(Sm4CipherMode::new(&f.sm4_key, mode_of(parts[1])).and_then(|m| m.encrypt(&[0x42u8; 33], data))),
         "sm9.decrypt" => okerr(f.sm9_key.decrypt(b"Bob", data)),
+        // data = the identity: identities of every length through decryption, verification and the three extractions
+        "sm9.decrypt.id" => okerr(f.sm9_key.decrypt(data, &f.sm9_ct)),
+        "sm9.verify.id" => {
+            let h = refmodels::util::to_limbs(&refmodels::util::from_be(&f.sm9_sig[..32]));
+            let s = gm_sm9::verif::point_from_bytes(&{ let mut b = vec![4u8]; b.extend_from_slice(&f.sm9_sig[32..96]); b });
+            okerr(f.sm9_msk.verify_sign(data, b"Chinese IBS standard", &h, &s))
+        }
+        "sm9.extract.id" => {
+            let ke = hb(crate::c10::ANNEX_KE);
+            let msk = gm_sm9::key::Sm9EncMasterKey { ke: refmodels::util::to_limbs(&ke), ppube: f.sm9_key.ppube };
+            let _ = f.sm9_msk.extract_key(data);
+            let _ = msk.extract_key(data);
+            let _ = msk.extract_exch_key(data);
+            Outcome::Ok
+        }
+        "sm2.verify.id" => {
+            // IDs are &'static str: the bytes are mapped to printable ASCII; the length is what is being swept
+            let id: String = data.iter().map(|b| (b'!' + b % 90) as char).collect();
+            okerr(f.pk.verify(Some(a2::static_id(&id)), &f.msg, &f.sig))
+        }
         "sm9.verify" => {
             // data = h (32) || S.x (32) || S.y (32), zero padded; parts[1] selects the representation of S
             let mut b = data.to_vec();
@@ -353,6 +373,10 @@ fn cases(tier: Tier, seed: u64) -> Vec<Case> {
         ("sm4.mode.new".into(), vec![f.sm4_key.to_vec()], 200),
         ("sm9.decrypt".into(), { let mut v = vec![f.sm9_ct.clone()]; v.extend(f.sm9_cts_aligned.iter().cloned()); v }, 400),
         ("sm9.mod_n_from_hash".into(), vec![vec![0xabu8; 40]], 200),
+        ("sm9.decrypt.id".into(), vec![b"Bob".to_vec()], 300),
+        ("sm9.verify.id".into(), vec![b"Alice".to_vec()], 300),
+        ("sm9.extract.id".into(), vec![b"Alice".to_vec()], 300),
+        ("sm2.verify.id".into(), vec![b"1234567812345678".to_vec()], 300),
         ("zuc.new.key".into(), vec![vec![0x3du8; 16]], 40),
         ("zuc.new.iv".into(), vec![vec![0x84u8; 16]], 40),
         ("zuc.eea.new".into(), vec![vec![0x17u8; 16]], 40),
@@ -540,7 +564,7 @@ pub fn run(ctx: &Arc<Ctx>) {
     refmodels::selftest::run(&["sm3", "sm2", "sm9"]).unwrap_or_else(|e| ctx.machinery_error(format!("reference self-test failed: {}", e)));
     let cs = Arc::new(cases(ctx.tier, ctx.seed));
     let limit = Duration::from_secs(ctx.tier.pick(5, 10));
-    ctx.set_rule("entry points: SM2 verify (signature and message), raw decryption (2 orders x 2 encodings), ASN.1 decryption, public/private key decoders for bytes, hex, DER and PEM, SM4 cipher construction, block encrypt/decrypt, mode construction and mode decryption (data and IV), SM9 decryption, SM9 verification (h and S from bytes, affine / Jacobian / infinity), mod_n_from_hash, the SM2 KDF, and (the property's anchors name eea.rs / eia.rs) ZUC / EEA3 / EIA3 construction from key and IV bytes and message buffers shorter than LENGTH; per byte-string parameter every length 0..=200 (0..=400 for SM9 decryption) x {0x00, 0xFF, seeded}; for each valid encoding (SM2 / SM9 ciphertexts also with a body of 32 and 64 bytes, the KDF block boundary) every truncation, every single-byte corruption (4 kinds per position) and trailing bytes; hex strings of every length 0..=140 and a non-hex character at every position; PEM truncations and corruptions; boundary private keys {0,1,n-2,n-1,n,2^256-1}: whatever the constructor accepts must sign, encrypt (also 32- and 64-byte messages), decrypt and run a key agreement to completion; SM9 encrypt / sign / exchange with valid keys over lengths {1,31,32,33,64,96,128,255}. Each call runs in a child process under panic capture and a wall-clock watchdog. Oracle: outcome in {Ok, Err}; panic, overflow, abort and time-out are violations (whether an Ok was deserved is judged by C04/C06/C07/C19).");
+    ctx.set_rule("entry points: SM2 verify (signature and message), raw decryption (2 orders x 2 encodings), ASN.1 decryption, public/private key decoders for bytes, hex, DER and PEM, SM4 cipher construction, block encrypt/decrypt, mode construction and mode decryption (data and IV), SM9 decryption, SM9 verification (h and S from bytes, affine / Jacobian / infinity), identities of every length 0..=300 through SM9 decryption / verification / extraction and SM2 verification, mod_n_from_hash, the SM2 KDF, and (the property's anchors name eea.rs / eia.rs) ZUC / EEA3 / EIA3 construction from key and IV bytes and message buffers shorter than LENGTH; per byte-string parameter every length 0..=200 (0..=400 for SM9 decryption) x {0x00, 0xFF, seeded}; for each valid encoding (SM2 / SM9 ciphertexts also with a body of 32 and 64 bytes, the KDF block boundary) every truncation, every single-byte corruption (4 kinds per position) and trailing bytes; hex strings of every length 0..=140 and a non-hex character at every position; PEM truncations and corruptions; boundary private keys {0,1,n-2,n-1,n,2^256-1}: whatever the constructor accepts must sign, encrypt (also 32- and 64-byte messages), decrypt and run a key agreement to completion; SM9 encrypt / sign / exchange with valid keys over lengths {1,31,32,33,64,96,128,255}. Each call runs in a child process under panic capture and a wall-clock watchdog. Oracle: outcome in {Ok, Err}; panic, overflow, abort and time-out are violations (whether an Ok was deserved is judged by C04/C06/C07/C19).");
     ctx.note_bound(format!("{} calls, watchdog {} s per call", cs.len(), limit.as_secs()));
     ctx.sample(serde_json::to_value(&cs[10]).unwrap());
     ctx.sample(serde_json::to_value(&cs[cs.len() - 1]).unwrap());
